@@ -8,7 +8,8 @@
    second Assign on a scalar builder, no Build before Assign) and no caller writes into byte slices.
    [read_obs ps r a] = what accessor [a] of node [r] returns in state [ps]. *)
 Require Import IP.Base.Bytes IP.DM.Value IP.Heap.GoMem IP.Heap.BasicHeap.
-Require Import IP.Proofs.HeapLogic IP.Proofs.HeapOps IP.Proofs.HeapPrims IP.Proofs.HeapC11.
+Require Import IP.Heap.Script.
+Require Import IP.Proofs.HeapLogic IP.Proofs.HeapOps IP.Proofs.HeapPrims IP.Proofs.HeapC11 IP.Proofs.HeapScript.
 From Coq Require Import List ZArith Bool.
 Import ListNotations.
 Local Open Scope nat_scope.
@@ -61,6 +62,25 @@ Theorem C11_ownership_invariant : forall cf hs, legalh cf pinit hs = true ->
              Forall (fun hd => handle_ok hd tg (hp (runh cf pinit hs))) (kn (runh cf pinit hs)).
 Proof. exact legal_history_invariant. Qed.
 Print Assumptions C11_ownership_invariant.
+
+(* What the harness runs is covered: the library's clients as modelled in coq/Heap/Script.v
+   (datamodel.Copy, FocusedTransform, value producers / decoders, encode, walk, the dumper, with the
+   re-dump of every register after every step) only make API calls, so every script whose legality
+   flag is still true is a Legal history … *)
+Theorem C11_scripts_are_legal_histories : forall cf os,
+  slegal (run_script cf sinit os) = true ->
+  exists hs, legalh cf pinit hs = true /\ runh cf pinit hs = fst (sx (run_script cf sinit os)).
+Proof. exact script_is_legal_history. Qed.
+Print Assumptions C11_scripts_are_legal_histories.
+
+(* … and a node read after a prefix of a script reads the same after the whole script. *)
+Theorem C11_script_stable : forall cf os1 os2,
+  slegal (run_script cf sinit (os1 ++ os2)) = true ->
+  forall r, known_b (kn (fst (sx (run_script cf sinit os1)))) (HNode r) = true ->
+  forall a, cf_stream_shared cf = false \/ stream_acc r a = false ->
+  read_obs cf (fst (sx (run_script cf sinit os1))) r a = read_obs cf (fst (sx (run_script cf sinit (os1 ++ os2)))) r a.
+Proof. exact script_stable. Qed.
+Print Assumptions C11_script_stable.
 
 (* ---- the pinned tree violates the full statement: streamBytes ---- *)
 
